@@ -111,6 +111,19 @@ func (k Keeper) ToggleClient(
 		return sdkerrors.Wrapf(types.ErrInvalidClientType, "cannot toggle client %s, client-type can't be the same", chainName)
 	}
 
+	// a client of another type takes over: drop the consensus states and metadata of the previous type,
+	// which the new client cannot read and which would make the exported genesis inconsistent
+	clientStore := k.ClientStore(ctx, chainName)
+	var staleKeys [][]byte
+	iterator := clientStore.Iterator(nil, nil)
+	for ; iterator.Valid(); iterator.Next() {
+		staleKeys = append(staleKeys, iterator.Key())
+	}
+	iterator.Close()
+	for _, key := range staleKeys {
+		clientStore.Delete(key)
+	}
+
 	k.SetClientState(ctx, chainName, newClientState)
 	// the client being installed initializes the store with the metadata its own type needs
 	if err := newClientState.Initialize(ctx, k.cdc, k.ClientStore(ctx, chainName), newConsensusState); err != nil {
